@@ -240,6 +240,7 @@ class Check(PropCheck):
         c = TagCollection()
         ref = []                       # reference ordered set of indices
         desc = {}
+        olds = []                      # (earlier collection object, its expected contents, index of the op that replaced it)
 
         def self_and_desc(t):
             acc = [t[0]]
@@ -261,10 +262,18 @@ class Check(PropCheck):
                             return ('isTagEqual', 'probe %d %r vs probe %d %r: isTagEqual %s, expected %s'
                                     % (i, PROBES[i], j, PROBES[j], got[i][j] == '1', want))
                 continue
+            prev, prev_ref = c, list(ref)
             try:
                 c = apply_op(U, c, op)
             except Exception as e:
                 return ('raises', 'op %d %r raised %s: %s' % (n, op, type(e).__name__, e))
+            if c is not prev:
+                # a non-in-place operator leaves its left operand as it was — now and under every later operation on the
+                # result (a result sharing the operand's uid bookkeeping shows here)
+                olds.append((prev, prev_ref, n))
+                del olds[:-4]
+            elif name in ('add', 'sub', 'ctor', 'uniq'):
+                return ('aliasing', 'op %d %r returned its left operand itself' % (n, op))
             if name in ('ctor', 'uniq'):
                 ref = []
             if name in ('ctor', 'uniq', 'add', 'iadd'):
@@ -299,6 +308,14 @@ class Check(PropCheck):
                 if c.contains(e) != (i in exp_all) or c.containsUid(e.uid) != (i in exp_all):
                     return ('contains', 'after op %d: contains(%d) = %r / containsUid = %r, expected %r'
                             % (n, i, c.contains(e), c.containsUid(e.uid), i in exp_all))
+            for o, oref, k in olds:
+                if o is c:
+                    continue
+                got_o = [U.idx(e) for e in o]
+                uids_o = sorted(U.idx_of_uid[u] for u in o.uids)
+                if got_o != oref or uids_o != sorted(oref) or any((U.by_idx[i] in o) != (i in oref) for i in U.order):
+                    return ('operand-changed', 'after op %d %r: the left operand of op %d now has items %r, uids %r, expected %r'
+                            % (n, op, k, got_o, uids_o, oref))
         fk = repr(d['forest'])
         if fk not in self._identity_done:
             self._identity_done[fk] = self.identity_oracle(U)
